@@ -98,4 +98,95 @@ def parse4 (s : List Nat) : Option (List Nat) :=
 def decimal (n : Nat) : List Nat := (Nat.toDigits 10 n).map (fun c => c.toNat)
 def fmt4 (a : List Nat) : List Nat := intercalate 46 (a.map decimal)
 
+/-! ### IPv6 text (RFC 4291 §2.2 for reading, RFC 5952 §4/§5 for writing) — written from the RFCs, not from libc
+
+  RFC 4291 §2.2: (1) `x:x:x:x:x:x:x:x`, each `x` one to four hex digits; (2) "::" may appear once and stands for one or
+  more groups of 16 zero bits, also at the start or the end; (3) the last 32 bits may be written as a dotted quad
+  `x:x:x:x:x:x:d.d.d.d` (also combined with "::").  Strict: nothing else is an address (no zone id, no prefix length,
+  no blanks, no empty group, no group longer than four digits, no single ':' at either end). -/
+
+/-- one 16-bit piece: one to four hex digits -/
+def hexGroupOK (g : List Nat) : Bool := (1 ≤ g.length && g.length ≤ 4) && g.all isHex
+/-- its two bytes -/
+def groupBytes (g : List Nat) : List Nat := [groupVal g / 256, groupVal g % 256]
+
+/-- the colon-separated pieces of a text; the empty text has no piece -/
+def pieces (t : List Nat) : List (List Nat) := if t = [] then [] else split 58 t
+
+/-- bytes of a list of hex pieces (form 1) -/
+def hexPieces : List (List Nat) → Option (List Nat)
+  | [] => some []
+  | g :: gs => if hexGroupOK g then (hexPieces gs).map (groupBytes g ++ ·) else none
+
+/-- the same, but the last piece may be a dotted quad (form 3) -/
+def tailPieces : List (List Nat) → Option (List Nat)
+  | [] => some []
+  | [g] => if hexGroupOK g then some (groupBytes g) else parse4 g
+  | g :: gs => if hexGroupOK g then (tailPieces gs).map (groupBytes g ++ ·) else none
+
+/-- the first "::" of a text: what stands before it and what stands after it -/
+def findDc : List Nat → Option (List Nat × List Nat)
+  | [] => none
+  | [_] => none
+  | c :: c' :: r =>
+    if c = 58 ∧ c' = 58 then some ([], r)
+    else (findDc (c' :: r)).map (fun (l, r') => (c :: l, r'))
+
+/-- IPv6 text → 16 bytes.  Without "::" the pieces must give exactly 128 bits; with "::" the pieces on its two sides
+    give at most 112 bits and the gap is filled with zero bits. A second "::" leaves an empty piece on the right side
+    (or a piece list starting with ':'), which no piece form accepts. -/
+def parse6 (s : List Nat) : Option (List Nat) :=
+  match findDc s with
+  | none =>
+    match tailPieces (pieces s) with
+    | some bs => if bs.length = 16 then some bs else none
+    | none => none
+  | some (l, r) =>
+    match hexPieces (pieces l), tailPieces (pieces r) with
+    | some lb, some rb =>
+      if lb.length + rb.length ≤ 14 then some (lb ++ List.replicate (16 - (lb.length + rb.length)) 0 ++ rb) else none
+    | _, _ => none
+
+/-- the eight 16-bit groups of a 16-byte address -/
+def groups6 : List Nat → List Nat
+  | b0 :: b1 :: r => (b0 * 256 + b1) :: groups6 r
+  | _ => []
+
+/-- RFC 5952 §4.1 / §4.3: the four hex digits of a group in lower case with leading zeros removed; a zero group is "0" -/
+def hexNumeral (v : Nat) : List Nat :=
+  let ds := [v / 4096 % 16, v / 256 % 16, v / 16 % 16, v % 16].dropWhile (· == 0)
+  (if ds = [] then [0] else ds).map lowerHex
+
+/-- groups `i .. i+l-1` exist and are all zero -/
+def zeroRun (gs : List Nat) (i l : Nat) : Bool := decide (i + l ≤ gs.length) && ((gs.drop i).take l).all (· == 0)
+
+/-- RFC 5952 §4.2: the run of zero groups that "::" replaces — at least two groups (§4.2.2), the longest one (§4.2.3),
+    the first one when several are longest (§4.2.3).  All candidate windows in order of start, then length; a later
+    candidate replaces the choice only when strictly longer. -/
+def bestRun (gs : List Nat) : Option (Nat × Nat) :=
+  let cands := (List.range 8).flatMap (fun i =>
+    (List.range 9).filterMap (fun l => if 2 ≤ l ∧ zeroRun gs i l = true then some (i, l) else none))
+  cands.foldl (fun best c => match best with
+    | none => some c
+    | some b => if c.2 > b.2 then some c else some b) none
+
+/-- RFC 5952 §5 (mixed notation for the well-known embedded-IPv4 forms) as glibc applies it:
+    IPv4-mapped `::ffff:a.b.c.d` always; IPv4-compatible `::a.b.c.d` when the embedded address is at least 0.1.0.0
+    (so `::1` and `::` stay hex). `some prefix` = the text in front of the dotted quad. -/
+def mixedPrefix (gs : List Nat) : Option (List Nat) :=
+  if gs.take 5 = [0, 0, 0, 0, 0] ∧ gs.getD 5 0 = 0xffff then some [58, 58, 102, 102, 102, 102, 58]
+  else if gs.take 6 = [0, 0, 0, 0, 0, 0] ∧ gs.getD 6 0 ≠ 0 then some [58, 58]
+  else none
+
+/-- the canonical text of a 16-byte address -/
+def fmt6 (a : List Nat) : List Nat :=
+  let gs := groups6 a
+  match mixedPrefix gs with
+  | some p => p ++ fmt4 (a.drop 12)
+  | none =>
+    match bestRun gs with
+    | none => intercalate 58 (gs.map hexNumeral)
+    | some (i, l) =>
+      intercalate 58 ((gs.take i).map hexNumeral) ++ [58, 58] ++ intercalate 58 ((gs.drop (i + l)).map hexNumeral)
+
 end Tins.Addr.Spec
